@@ -6,8 +6,8 @@ import (
 	"strings"
 
 	"github.com/go-openapi/analysis"
-	"github.com/go-openapi/swag"
 	"github.com/go-openapi/spec"
+	"github.com/go-openapi/swag"
 )
 
 func init() {
